@@ -275,6 +275,16 @@ func processPoints(points []Point, closed bool) (
 		if concave {
 			continue
 		}
+		if a == b {
+			// a repeated position has no direction of its own and makes no
+			// turn.
+			continue
+		}
+		for j := i + 3; c == b && j < i+len(points); j++ {
+			// the position after b repeats b. The turn at b is the one towards
+			// the next position that differs from it.
+			c = points[j%len(points)]
+		}
 
 		zCrossProduct := (b.X-a.X)*(c.Y-b.Y) - (b.Y-a.Y)*(c.X-b.X)
 		if dir == 0 {
